@@ -11,6 +11,7 @@ for the unreachable branches).  An index without references round-trips like any
 import Hts.Model.Index
 import Hts.Model.Csi
 import Hts.Model.Tabix
+import Hts.Model.Coord
 namespace Hts.Model.IndexIO
 open Hts.Model.Index
 
@@ -284,8 +285,9 @@ open Hts.Model.Csi
 
 def csiMagic : Bytes := [0x43, 0x53, 0x49]
 
-/-- `uint32(((1 << ((depth+1)*3)) - 1) / 7)` (exact for depth ≤ 9) -/
-def csiBinLimit (depth : Nat) : Nat := (8 ^ (depth + 1) - 1) / 7
+/-- `binLimit := uint32(((1 << ((depth+1)*3)) - 1) / 7)` in `uint32` arithmetic as coded (the shift
+wraps to 0 from depth 10 on); equal to `(8^(depth+1) - 1)/7` for depth ≤ 9 -/
+def csiBinLimit (depth : Nat) : Nat := Hts.Model.Coord.csiT0 (depth + 1)
 
 def wCBin (version : Nat) (b : CBin) : Bytes :=
   le32 b.bin ++ i64 b.left ++ (if version = 2 then le64 b.records else []) ++ wChunks b.chunks
@@ -334,8 +336,8 @@ def rCBins (version binLimit : Nat) : P (List CBin × Option Stats) := fun bs =>
   | .error e => .error e
   | .ok (n, rest) =>
     if n = 0 then .ok (([], none), rest)
-    else if (n % 4294967296).toNat > binLimit then .error .err
     else if n < 0 then .error .err
+    else if n.toNat > binLimit + 1 then .error .err   -- every bin of the geometry plus the pseudo-bin
     else match rCBinLoop version (binLimit + 1) n.toNat [] none rest with
       | .error e => .error e
       | .ok ((bins, st), rest') => .ok ((bins.mergeSort leCBin, st), rest')
